@@ -37,7 +37,7 @@ def configs(tier):
 KEY = None
 
 
-def build(kind, start, every, d=1, ncomp=1, time_first=False):
+def build(kind, start, every, d=1, ncomp=1, time_first=False, system=False):
     global KEY
     import jinns
     from jinns.parameters import Params
@@ -48,7 +48,21 @@ def build(kind, start, every, d=1, ncomp=1, time_first=False):
     sc = lambda v: jnp.ravel(v)[0]
     rp = {"start_iter": start, "update_every": every, "sample_size_times": 3, "selected_sample_size_times": 2,
           "sample_size_omega": 4, "selected_sample_size_omega": 2, "sample_size": 3, "selected_sample_size": 2}
-    if kind == "ode":
+    if kind == "ode" and system:
+        # a system of two ODEs (declared in non-alphabetical order) with two unknowns: candidates are ranked by the SUM over the equations
+        from jinns.loss import SystemLossODE, LossWeightsODEDict
+        from jinns.parameters import ParamsDict
+        nets = {k: mk_pinn(1, 1, "ODE", deg=1, H=1) for k in ("a", "b")}
+        class Eq(ODE):
+            idx: int = eqx.field(static=True, default=0)
+            def equation(self, t, ud, pd):
+                return jnp.array([psi(self.idx)((1.0 + self.idx) * ud["a"](t, pd.extract_params("a"))[0] + ud["b"](t, pd.extract_params("b"))[0] + 0.5 * sc(t))])
+        params = ParamsDict(nn_params={k: nets[k].init_params() for k in nets}, eq_params={"kappa": jnp.array(1.3)})
+        loss = SystemLossODE(u_dict=nets, dynamic_loss_dict={"e1": Eq(idx=1, Tmax=1), "e0": Eq(idx=0, Tmax=1)},
+                             loss_weights=LossWeightsODEDict(dyn_loss=1.0, initial_condition=1.0, observations=1.0), params_dict=params)
+        data = DG.DataGeneratorODE(key, 9, 0.0, 1.0, 2, rar_parameters=rp, nt_start=3)
+        sizes = dict(times=(9, 3, 2))
+    elif kind == "ode":
         u = mk_pinn(1, 1, "ODE", deg=1, H=1)
         class Eq(ODE):
             def equation(self, t, u, p):
